@@ -102,6 +102,15 @@ pub fn replay(call: &str, _clause: &str, args: &[u64]) -> Verdict {
     if call == "const" {
         return judge_consts();
     }
+    if call == "try_from_tuple" || call == "try_from_array" {
+        use core::convert::TryFrom;
+        let (a, b) = (f64::from_bits(args[0]), f64::from_bits(args[1]));
+        let res = if call == "try_from_tuple" { st::TF::try_from((a, b)).ok() } else { st::TF::try_from([a, b]).ok() };
+        return match res {
+            Some(t) if !ok_result([t.hi(), t.lo()]) => Verdict::fail("normalised_or_nonfinite_hi", if call == "try_from_tuple" { "try_from_tuple" } else { "try_from_array" }, args, show_dd([t.hi(), t.lo()]), "Err, or a valid TwoFloat".into(), "overlapping_words"),
+            _ => Verdict::Pass,
+        };
+    }
     let op = Op::from_name(call).expect("unknown op");
     judge(op, [f64::from_bits(args[0]), f64::from_bits(args[1])], [f64::from_bits(args[2]), f64::from_bits(args[3])]).0
 }
@@ -367,6 +376,43 @@ pub fn run(r: &mut Runner) {
             }
         });
         r.par("constants", 1, 23, |_, l| rec.record(l, 1u64 << 51, judge_consts()));
+    }
+    {
+        // checked construction: whatever TryFrom accepts must be normalised (every exponent of the high word,
+        // low words at and around the half-ulp / quarter-ulp thresholds, both signs)
+        let fr: Vec<u64> = vec![0, 1, (1u64 << 52) - 1, (1u64 << 52) - 2, 1u64 << 51];
+        let es: Vec<i32> = (-1022..=1023).collect();
+        r.par("depth 1: TryFrom<(f64,f64)> / TryFrom<[f64;2]>", es.len(), (es.len() * fr.len() * 2 * 56) as u64, |c, l| {
+            use core::convert::TryFrom;
+            let e = es[c];
+            let mut i = 0u64;
+            for &f in &fr {
+                for s in [false, true] {
+                    let a = tfref::alpha::mk_f64(s, e, f).unwrap();
+                    for j in -2..=1 {
+                        let te = e - 53 + j;
+                        if te < -1074 {
+                            continue;
+                        }
+                        let t = tfref::big::pow2_f64(te);
+                        for k in -3..=3 {
+                            for sb in [1.0, -1.0] {
+                                let b = sb * crate::util::step(t, k);
+                                let args = [a.to_bits(), b.to_bits()];
+                                for (which, res) in [("try_from_tuple", st::TF::try_from((a, b)).ok()), ("try_from_array", st::TF::try_from([a, b]).ok())] {
+                                    let v = match res {
+                                        Some(t) if !ok_result([t.hi(), t.lo()]) => Verdict::fail("normalised_or_nonfinite_hi", which, &args, show_dd([t.hi(), t.lo()]), "Err, or a valid TwoFloat".into(), "overlapping_words"),
+                                        _ => Verdict::Pass,
+                                    };
+                                    rec.record(l, (1u64 << 52) + ((c as u64) << 16) + i, v);
+                                    i += 1;
+                                }
+                            }
+                        }
+                    }
+                }
+            }
+        });
     }
     // ------------------------------------------------------------------ (b) chains: level-synchronous BFS
     let sd = seeds();
